@@ -293,9 +293,25 @@ WiringPortRef wire_push_src(Scope &sc, const JV &st) {
     PushSourcePolicy pol = policy == "burst" ? make_push_source_burst_policy(*schema, cap)
                            : policy == "conflating" ? make_push_source_conflating_policy(*schema)
                                                     : make_push_source_queue_policy(*schema, cap);
-    NodeBuilder nb = make_push_source_node(*schema, pol, [id](PushSourceSender s) {
-        if (g_ctx) { g_ctx->senders[id] = std::make_shared<PushSourceSender>(std::move(s)); g_ctx->senders_ready.fetch_add(1); }
-    });
+    const std::int64_t start_timer_us = st.int_or("start_timer_us", 0);
+    NodeBuilder nb = start_timer_us > 0
+        ? [&] {
+              // a push source that also uses the scheduler: its start hook books one timer (the view-taking start callback)
+              PushSourceNodeExtension ext;
+              ext.uses_scheduler = true;
+              ext.on_start = [id, start_timer_us](PushSourceSender s, const NodeView &v, DateTime t) {
+                  NodeScheduler sch{v.scheduler_state(), v.graph_value(), v.node_index(), t, false};
+                  sch.schedule(t + TimeDelta{start_timer_us});
+                  if (g_ctx) {
+                      g_ctx->add("[\"pst\"," + ident(v) + "," + jtime(t) + "," + jtime(t + TimeDelta{start_timer_us}) + "]");
+                      g_ctx->senders[id] = std::make_shared<PushSourceSender>(std::move(s)); g_ctx->senders_ready.fetch_add(1);
+                  }
+              };
+              return make_push_source_node_with_view(*schema, pol, std::move(ext));
+          }()
+        : make_push_source_node(*schema, pol, [id](PushSourceSender s) {
+              if (g_ctx) { g_ctx->senders[id] = std::make_shared<PushSourceSender>(std::move(s)); g_ctx->senders_ready.fetch_add(1); }
+          });
     nb.label(sc.prefix + id);
     return sc.w->add_unique_node(std::type_index(typeid(DefPush)), std::move(nb), std::span<const WiringPortRef>{}, Value{});
 }
